@@ -4,7 +4,9 @@ import PngVerif.Model.Transform
 
 Helper lemmas for `PngVerif/Props/C08.lean`.  Structure: generic list lemmas; sizes; bytes and
 16-bit samples; chunk loops; the transform families (colour key 8/16 bit, strip16, copy, sub-byte
-unpacking, gray expansion, memo palette, palette expansion); selection; the combined row theorem.
+unpacking, gray expansion, memo palette — pinned-tree function and repaired function —, palette
+expansion); selection; the combined row theorem (for every PLTE length); sizes; defect D1 on the
+pinned tree; corner cases.
 -/
 namespace Png.Transform
 open Png
@@ -849,11 +851,12 @@ theorem rgbBytes_of_rgb (e : Rgba) (r g b : UInt8) (h : e.rgb = (r, g, b)) : e.r
   simp only [Rgba.rgb, Prod.mk.injEq] at h
   simp [Rgba.rgbBytes, h]
 
-/-- **memo palette = documented lookup**, for every index 0..255, given whole entries and at most
-    256 of them; in particular `create_rgba_palette` does not panic then -/
-theorem createRgbaPalette_spec (pal : Bytes) (trns : Option Bytes)
+/-- the pinned-tree function (= the repaired function after its truncation step): memo palette =
+    documented lookup, for every index 0..255, given whole entries and at most 256 of them; in
+    particular no panic then -/
+theorem createRgbaPaletteOld_spec (pal : Bytes) (trns : Option Bytes)
     (h3 : pal.length % 3 = 0) (h768 : pal.length ≤ 768) :
-    ∃ memo, createRgbaPalette pal trns = .ok memo ∧ memo.length = 256 ∧
+    ∃ memo, createRgbaPaletteOld pal trns = .ok memo ∧ memo.length = 256 ∧
       ∀ i, i < 256 → ∃ e, memo[i]? = some e ∧ entryOk pal trns i e := by
   have hm : pal.length = 3 * (pal.length / 3) := by omega
   have hm256 : pal.length / 3 ≤ 256 := by omega
@@ -864,7 +867,7 @@ theorem createRgbaPalette_spec (pal : Bytes) (trns : Option Bytes)
   have hun : (effTrns pal trns).length ≤ pal.length / 3 ∧
       pal.length / 3 ≤ (zipAlpha (effTrns pal trns) L).length := by
     rw [zipAlpha_length, hLlen]; exact ⟨htl, hm256⟩
-  refine ⟨_, by simp only [createRgbaPalette, hL, unclobber]; rw [← effTrns, if_pos hun], by
+  refine ⟨_, by simp only [createRgbaPaletteOld, hL, unclobber]; rw [← effTrns, if_pos hun], by
     simp [zipAlpha_length, hLlen], ?_⟩
   intro i hi
   have hLi : ∃ e0, L[i]? = some e0 := ⟨L[i]'(by omega), List.getElem?_eq_getElem (by omega)⟩
@@ -915,6 +918,41 @@ theorem createRgbaPalette_spec (pal : Bytes) (trns : Option Bytes)
         simp only [hno, if_false]
         simp [List.getElem?_eq_none (Nat.le_of_not_lt h1), Rgba.a]
 
+/-! ### the repaired `create_rgba_palette`: truncation to whole entries, at most 256 -/
+
+theorem specPalette_length (plte : Bytes) :
+    (specPalette plte).length = min (plte.length / 3) 256 * 3 := by
+  unfold specPalette; rw [List.length_take]; omega
+
+theorem specPalette_guard (plte : Bytes) :
+    (specPalette plte).length % 3 = 0 ∧ (specPalette plte).length ≤ 768 := by
+  rw [specPalette_length]; omega
+
+/-- number of usable entries -/
+theorem specPalette_entries (plte : Bytes) : (specPalette plte).length / 3 = min (plte.length / 3) 256 := by
+  rw [specPalette_length]; omega
+
+/-- a valid PLTE chunk is its own list of entries -/
+theorem specPalette_of_guard (plte : Bytes) (h3 : plte.length % 3 = 0) (h768 : plte.length ≤ 768) :
+    specPalette plte = plte := by
+  unfold specPalette; apply List.take_of_length_le; omega
+
+/-- the slice expression of the repair cannot panic; the repaired function is the old one on the
+    usable entries -/
+theorem createRgbaPalette_eq (pal : Bytes) (trns : Option Bytes) :
+    createRgbaPalette pal trns = createRgbaPaletteOld (specPalette pal) trns := by
+  unfold createRgbaPalette specPalette
+  simp only
+  rw [if_pos (by omega)]
+
+/-- **memo palette = documented lookup for EVERY PLTE length** (repaired function): no panic, and
+    row `i` is entry `i` of the usable entries (black beyond) with the tRNS alpha -/
+theorem createRgbaPalette_spec (pal : Bytes) (trns : Option Bytes) :
+    ∃ memo, createRgbaPalette pal trns = .ok memo ∧ memo.length = 256 ∧
+      ∀ i, i < 256 → ∃ e, memo[i]? = some e ∧ entryOk (specPalette pal) trns i e := by
+  rw [createRgbaPalette_eq]
+  exact createRgbaPaletteOld_spec (specPalette pal) trns (specPalette_guard pal).1 (specPalette_guard pal).2
+
 /-! ### palette expansion -/
 
 theorem row_enough (bd : BitDepth) (h : bd ≠ .sixteen) (w ch : Nat) (row : Bytes)
@@ -945,7 +983,7 @@ theorem notSixteen_depth (info : Info) (f : Flags) (hd : info.bitDepth ≠ .sixt
 /-- per pixel: the memo entry is the documented palette lookup -/
 theorem specPixel_indexed (info : Info) (f : Flags) (pal : Bytes) (x : UInt8) (e : Rgba)
     (hct : info.colorType = .indexed) (hd : info.bitDepth ≠ .sixteen) (he : f.doExpand = true)
-    (hpal : info.palette = some pal) (hok : entryOk pal info.trns x.toNat e) :
+    (hpal : info.palette = some pal) (hok : entryOk (specPalette pal) info.trns x.toNat e) :
     serialize (specOutputDepth info f) (specPixel info f [x.toNat])
       = if addAlpha info f then e.toBytes else e.rgbBytes := by
   have hed := notSixteen_depth info f hd he
@@ -964,7 +1002,7 @@ theorem expandPalettedIntoRgba8_eq_spec (info : Info) (f : Flags) (pal : Bytes) 
     (hct : info.colorType = .indexed) (hd : info.bitDepth ≠ .sixteen) (he : f.doExpand = true)
     (ha : addAlpha info f = true) (hpal : info.palette = some pal)
     (hlen : memo.length = 256)
-    (hmemo : ∀ i, i < 256 → ∃ e, memo[i]? = some e ∧ entryOk pal info.trns i e)
+    (hmemo : ∀ i, i < 256 → ∃ e, memo[i]? = some e ∧ entryOk (specPalette pal) info.trns i e)
     (hrow : row.length = (w * info.colorType.samples * info.bitDepth.toNat + 7) / 8)
     (hout : out.length = w * 4) :
     expandPalettedIntoRgba8 info memo row out = .ok (specConvert info f row w) := by
@@ -979,7 +1017,7 @@ theorem expandPalettedIntoRgba8_eq_spec (info : Info) (f : Flags) (pal : Bytes) 
   · congr 1
     apply flatMap_congr'
     intro x _
-    rw [specPixel_indexed info f pal x _ hct hd he hpal (memoGet_ok pal info.trns memo hmemo x), if_pos ha]
+    rw [specPixel_indexed info f pal x _ hct hd he hpal (memoGet_ok (specPalette pal) info.trns memo hmemo x), if_pos ha]
   · intro x _
     simp only [memoLookup_ok memo hlen]
 
@@ -989,7 +1027,7 @@ theorem expandIntoRgb8_eq_spec (info : Info) (f : Flags) (pal : Bytes) (memo : L
     (hct : info.colorType = .indexed) (hd : info.bitDepth ≠ .sixteen) (he : f.doExpand = true)
     (ha : addAlpha info f = false) (hpal : info.palette = some pal)
     (hlen : memo.length = 256)
-    (hmemo : ∀ i, i < 256 → ∃ e, memo[i]? = some e ∧ entryOk pal info.trns i e)
+    (hmemo : ∀ i, i < 256 → ∃ e, memo[i]? = some e ∧ entryOk (specPalette pal) info.trns i e)
     (hrow : row.length = (w * info.colorType.samples * info.bitDepth.toNat + 7) / 8)
     (hout : out.length = w * 3) :
     expandIntoRgb8 info memo row out = .ok (specConvert info f row w) := by
@@ -1004,7 +1042,7 @@ theorem expandIntoRgb8_eq_spec (info : Info) (f : Flags) (pal : Bytes) (memo : L
   · congr 1
     apply flatMap_congr'
     intro x _
-    rw [specPixel_indexed info f pal x _ hct hd he hpal (memoGet_ok pal info.trns memo hmemo x)]
+    rw [specPixel_indexed info f pal x _ hct hd he hpal (memoGet_ok (specPalette pal) info.trns memo hmemo x)]
     simp [ha]
   · intro x _
     simp only [memoLookup_ok memo hlen]
@@ -1044,7 +1082,7 @@ theorem expand8bitIntoRgb8_eq_spec (info : Info) (f : Flags) (pal : Bytes) (memo
     (hct : info.colorType = .indexed) (hd : info.bitDepth = .eight) (he : f.doExpand = true)
     (ha : addAlpha info f = false) (hpal : info.palette = some pal)
     (hlen : memo.length = 256)
-    (hmemo : ∀ i, i < 256 → ∃ e, memo[i]? = some e ∧ entryOk pal info.trns i e)
+    (hmemo : ∀ i, i < 256 → ∃ e, memo[i]? = some e ∧ entryOk (specPalette pal) info.trns i e)
     (hrow : row.length = w) (hout : out.length = w * 3) :
     expand8bitIntoRgb8 memo row out = .ok (specConvert info f row w) := by
   have hch : info.colorType.samples = 1 := by simp [hct, ColorType.samples]
@@ -1057,7 +1095,7 @@ theorem expand8bitIntoRgb8_eq_spec (info : Info) (f : Flags) (pal : Bytes) (memo
   congr 1
   apply flatMap_congr'
   intro x _
-  rw [specPixel_indexed info f pal x _ hct hd' he hpal (memoGet_ok pal info.trns memo hmemo x)]
+  rw [specPixel_indexed info f pal x _ hct hd' he hpal (memoGet_ok (specPalette pal) info.trns memo hmemo x)]
   simp [ha]
 
 /-! ### selection (`create_transform_fn`) -/
@@ -1123,19 +1161,19 @@ theorem plain_case (info : Info) (f : Flags) (w : Nat) (row out : Bytes)
     simp only [specOutputDepth, hed, hd, BitDepth.toNat, show ¬ ((8 : Nat) = 16 ∧ f.strip16 = true) by omega,
       if_false] at hol hrow
     simp only [transformRow, hsel, hd, show ¬ (BitDepth.eight = BitDepth.sixteen ∧ f.strip16 = true) by simp,
-      if_false, applyKind]
+      if_false, applyKind, applyKindWith]
     exact copyRow_eq_spec info f w row out (Or.inr ⟨Or.inl hd, hplain⟩)
       (Or.inl (by rw [hs, hd]; simp only [BitDepth.toNat]; omega)) (by omega)
   · have hed : specExpandedDepth info f = 16 := by simp [specExpandedDepth, hd, BitDepth.toNat]
     by_cases hst : f.strip16 = true
     · simp only [specOutputDepth, hed, hst, and_self, if_true, hd, BitDepth.toNat] at hol hrow
-      simp only [transformRow, hsel, hd, hst, and_self, if_true, applyKind]
+      simp only [transformRow, hsel, hd, hst, and_self, if_true, applyKind, applyKindWith]
       exact transformRowStrip16_eq_spec info f w row out hd hst hplain
         (by rw [← Nat.mul_assoc, hs]; omega) (by rw [hs]; omega)
     · have hst' : f.strip16 = false := by simpa using hst
       simp only [specOutputDepth, hed, hst', hd, BitDepth.toNat, Bool.false_eq_true, and_false,
         if_false] at hol hrow
-      simp only [transformRow, hsel, hd, hst', Bool.false_eq_true, and_false, if_false, applyKind]
+      simp only [transformRow, hsel, hd, hst', Bool.false_eq_true, and_false, if_false, applyKind, applyKindWith]
       exact copyRow_eq_spec info f w row out (Or.inr ⟨Or.inr ⟨hd, hst'⟩, hplain⟩)
         (Or.inl (by rw [hs, hd]; simp only [BitDepth.toNat]; omega)) (by omega)
 
@@ -1168,7 +1206,7 @@ theorem transformRow_noexpand (info : Info) (f : Flags) (w : Nat) (row out : Byt
     have hod : specOutputDepth info f = info.bitDepth.toNat := by
       simp only [specOutputDepth, hed]; rw [if_neg (by omega)]
     rw [hcol, hod] at hol
-    simp only [transformRow, hsel, applyKind]
+    simp only [transformRow, hsel, applyKind, applyKindWith]
     exact copyRow_eq_spec info f w row out (Or.inl ⟨hd, he⟩) (Or.inr hd) (by omega)
   all_goals
     apply plain_case info f w row out (by simp [hd]) (plain_of_not_expand info f he) hcol _ hrow hol
@@ -1196,7 +1234,7 @@ theorem transformRow_key (info : Info) (f : Flags) (w : Nat) (row out : Bytes)
       rw [selectTransform_eq]; rcases hct with h | h <;> simp [h, he, ha, hd, BitDepth.toNat]
     simp only [specOutputDepth, hed, hd, BitDepth.toNat, show ¬ ((8 : Nat) = 16 ∧ f.strip16 = true) by omega,
       if_false] at hol hrow
-    simp only [transformRow, hsel, applyKind]
+    simp only [transformRow, hsel, applyKind, applyKindWith]
     congr 1
     exact expandTrnsLine_eq_spec info f w row out hd hct he ha (by rw [hch]; omega) (by rw [hch]; omega)
   · have hed : specExpandedDepth info f = 16 := by simp [specExpandedDepth, hd, BitDepth.toNat]
@@ -1206,7 +1244,7 @@ theorem transformRow_key (info : Info) (f : Flags) (w : Nat) (row out : Bytes)
     · have hsel : selectTransform info f = .ok .trnsStrip16 := by
         rw [selectTransform_eq]; rcases hct with h | h <;> simp [h, he, ha, hd, hst, BitDepth.toNat]
       simp only [specOutputDepth, hed, hst, and_self, if_true, hd, BitDepth.toNat] at hol hrow
-      simp only [transformRow, hsel, applyKind]
+      simp only [transformRow, hsel, applyKind, applyKindWith]
       congr 1
       exact expandTrnsAndStripLine16_eq_spec info f w row out hd hct he ha hst hkey'
         (by rw [hch, ← Nat.mul_assoc]; omega) (by rw [hch]; omega)
@@ -1215,7 +1253,7 @@ theorem transformRow_key (info : Info) (f : Flags) (w : Nat) (row out : Bytes)
         rw [selectTransform_eq]; rcases hct with h | h <;> simp [h, he, ha, hd, hst', BitDepth.toNat]
       simp only [specOutputDepth, hed, hst', hd, BitDepth.toNat, Bool.false_eq_true, and_false,
         if_false] at hol hrow
-      simp only [transformRow, hsel, applyKind]
+      simp only [transformRow, hsel, applyKind, applyKindWith]
       congr 1
       exact expandTrnsLine16_eq_spec info f w row out hd hct he ha hst' hkey'
         (by rw [hch, ← Nat.mul_assoc]; omega)
@@ -1238,7 +1276,7 @@ theorem transformRow_gray_subbyte (info : Info) (f : Flags) (w : Nat) (row out :
     have hoc : (specOutputColor info f).samples = 2 := by
       simp [specOutputColor, he, ha, hct, ColorType.samples]
     rw [hoc] at hol
-    simp only [transformRow, hsel, applyKind]
+    simp only [transformRow, hsel, applyKind, applyKindWith]
     refine expandGrayU8WithTrns_eq_spec info f w row out hct hd he ha ?_ hrow (by omega)
     intro t ht
     have := hkey t ht
@@ -1250,27 +1288,27 @@ theorem transformRow_gray_subbyte (info : Info) (f : Flags) (w : Nat) (row out :
     have hoc : (specOutputColor info f).samples = 1 := by
       simp [specOutputColor, he, ha', hct, ColorType.samples]
     rw [hoc] at hol
-    simp only [transformRow, hsel, applyKind]
+    simp only [transformRow, hsel, applyKind, applyKindWith]
     exact expandGrayU8_eq_spec info f w row out hct hd he ha' hrow (by omega)
 
-/-- indexed images under EXPAND, given whole palette entries and at most 256 of them -/
+/-- indexed images under EXPAND, for a PLTE chunk of any length -/
 theorem transformRow_indexed (info : Info) (f : Flags) (w : Nat) (row out : Bytes) (pal : Bytes)
     (hct : info.colorType = .indexed) (hd : info.bitDepth ≠ .sixteen) (he : f.doExpand = true)
-    (hpal : info.palette = some pal) (h3 : pal.length % 3 = 0) (h768 : pal.length ≤ 768)
+    (hpal : info.palette = some pal)
     (hrow : row.length = (w * info.colorType.samples * info.bitDepth.toNat + 7) / 8)
     (hol : out.length = (w * (specOutputColor info f).samples * specOutputDepth info f + 7) / 8) :
     transformRow info f row out = .ok (specConvert info f row w) := by
   have hed := notSixteen_depth info f hd he
   have hod : specOutputDepth info f = 8 := by simp [specOutputDepth, hed]
   rw [hod] at hol
-  obtain ⟨memo, hmemo, hlen, hent⟩ := createRgbaPalette_spec pal info.trns h3 h768
+  obtain ⟨memo, hmemo, hlen, hent⟩ := createRgbaPalette_spec pal info.trns
   by_cases ha : addAlpha info f = true
   · have hsel : selectTransform info f = .ok .paletteRgba := by
       rw [selectTransform_eq]; simp [hct, he, ha, hd, hpal]
     have hoc : (specOutputColor info f).samples = 4 := by
       simp [specOutputColor, he, ha, hct, ColorType.samples]
     rw [hoc] at hol
-    simp only [transformRow, hsel, applyKind, hpal, hmemo]
+    simp only [transformRow, hsel, applyKind, applyKindWith, hpal, hmemo]
     exact expandPalettedIntoRgba8_eq_spec info f pal memo w row out hct hd he ha hpal hlen hent hrow (by omega)
   · have ha' : addAlpha info f = false := by simpa using ha
     have hoc : (specOutputColor info f).samples = 3 := by
@@ -1279,19 +1317,19 @@ theorem transformRow_indexed (info : Info) (f : Flags) (w : Nat) (row out : Byte
     by_cases h8 : info.bitDepth = .eight
     · have hsel : selectTransform info f = .ok .paletteRgb8 := by
         rw [selectTransform_eq]; simp [hct, he, ha', hpal, h8]
-      simp only [transformRow, hsel, applyKind, hpal, hmemo]
+      simp only [transformRow, hsel, applyKind, applyKindWith, hpal, hmemo]
       refine expand8bitIntoRgb8_eq_spec info f pal memo w row out hct h8 he ha' hpal hlen hent ?_ (by omega)
       rw [hrow, h8, hct]; simp only [ColorType.samples, BitDepth.toNat]; omega
     · have hsel : selectTransform info f = .ok .paletteRgb := by
         rw [selectTransform_eq]; simp [hct, he, ha', hd, hpal, h8]
-      simp only [transformRow, hsel, applyKind, hpal, hmemo]
+      simp only [transformRow, hsel, applyKind, applyKindWith, hpal, hmemo]
       exact expandIntoRgb8_eq_spec info f pal memo w row out hct hd he ha' hpal hlen hent hrow (by omega)
 
 /-- **Row theorem.**  For well-formed metadata, every flag set, every width, every row of the raw
     row length and every prior content of an output buffer of the advertised line size: the
     selected transform neither errors nor panics and leaves exactly the documented conversion. -/
-theorem transformRow_eq_spec (info : Info) (f : Flags) (w : Nat) (row out : Bytes)
-    (hw : WellFormed info)
+theorem transformRow_eq_spec_decodable (info : Info) (f : Flags) (w : Nat) (row out : Bytes)
+    (hw : Decodable info)
     (hrow : row.length = rawRowLengthFromWidth info.colorType info.bitDepth w - 1)
     (hout : outputLineSize info f w = .ok out.length) :
     transformRow info f row out = .ok (specConvert info f row w) := by
@@ -1315,8 +1353,10 @@ theorem transformRow_eq_spec (info : Info) (f : Flags) (w : Nat) (row out : Byte
           · simp [specOutputColor, he, hc, ha']
           · rw [selectTransform_eq]; cases hs : f.strip16 <;> simp [he, hc, ha', hd, BitDepth.toNat]
     · -- indexed
-      obtain ⟨pal, hp, h3, h768⟩ := hpal hc
-      exact transformRow_indexed info f w row out pal hc hne he hp h3 h768 hrow hol
+      have hsome := hpal hc
+      cases hp : info.palette with
+      | none => simp [hp] at hsome
+      | some pal => exact transformRow_indexed info f w row out pal hc hne he hp hrow hol
     · rcases hc with hc | hc | hc
       · -- RGB
         by_cases ha : addAlpha info f = true
@@ -1335,6 +1375,17 @@ theorem transformRow_eq_spec (info : Info) (f : Flags) (w : Nat) (row out : Byte
         · rw [selectTransform_eq]
           rcases hd with hd | hd <;> cases hs : f.strip16 <;> simp [he, hc, hd, BitDepth.toNat]
   · exact transformRow_noexpand info f w row out hl (by simpa using he) hrow hol
+
+theorem WellFormed.decodable {info : Info} (hw : WellFormed info) : Decodable info :=
+  ⟨hw.legal, fun hc => by obtain ⟨p, hp, _⟩ := hw.palette hc; simp [hp], hw.key⟩
+
+/-- the same for valid metadata -/
+theorem transformRow_eq_spec (info : Info) (f : Flags) (w : Nat) (row out : Bytes)
+    (hw : WellFormed info)
+    (hrow : row.length = rawRowLengthFromWidth info.colorType info.bitDepth w - 1)
+    (hout : outputLineSize info f w = .ok out.length) :
+    transformRow info f row out = .ok (specConvert info f row w) :=
+  transformRow_eq_spec_decodable info f w row out hw.decodable hrow hout
 
 /-! ### the documented conversion has the documented size -/
 
@@ -1448,28 +1499,56 @@ theorem copyEntries_panic : ∀ (slots : List Rgba) (pal : Bytes),
       have := ih (x :: rest) (by simp only [List.length_cons] at h ⊢; omega)
       simp [copyEntries, this]
 
-/-- **`create_rgba_palette` panics exactly when the PLTE length is not a multiple of 3 or exceeds
-    768 bytes** (whatever the tRNS chunk) -/
-theorem createRgbaPalette_panic_iff (pal : Bytes) (trns : Option Bytes) :
-    createRgbaPalette pal trns = .error .panic ↔ (pal.length % 3 ≠ 0 ∨ pal.length > 768) := by
+/-- **pinned tree: `create_rgba_palette` panicked exactly when the PLTE length is not a multiple of
+    3 or exceeds 768 bytes** (whatever the tRNS chunk) -/
+theorem createRgbaPaletteOld_panic_iff (pal : Bytes) (trns : Option Bytes) :
+    createRgbaPaletteOld pal trns = .error .panic ↔ (pal.length % 3 ≠ 0 ∨ pal.length > 768) := by
   constructor
   · intro h
     by_cases hg : pal.length % 3 = 0 ∧ pal.length ≤ 768
-    · obtain ⟨memo, hm, _⟩ := createRgbaPalette_spec pal trns hg.1 hg.2
+    · obtain ⟨memo, hm, _⟩ := createRgbaPaletteOld_spec pal trns hg.1 hg.2
       rw [hm] at h; cases h
     · omega
   · intro h
     have := copyEntries_panic (List.replicate 256 (0, 0, 0, 0xFF)) pal
       (by rw [List.length_replicate]; omega)
-    simp only [createRgbaPalette, this]
+    simp only [createRgbaPaletteOld, this]
 
-/-- never any other failure -/
-theorem createRgbaPalette_total (pal : Bytes) (trns : Option Bytes) :
-    createRgbaPalette pal trns = .error .panic ∨ ∃ memo, createRgbaPalette pal trns = .ok memo := by
+/-- pinned tree: never any other failure -/
+theorem createRgbaPaletteOld_total (pal : Bytes) (trns : Option Bytes) :
+    createRgbaPaletteOld pal trns = .error .panic ∨ ∃ memo, createRgbaPaletteOld pal trns = .ok memo := by
   by_cases hg : pal.length % 3 = 0 ∧ pal.length ≤ 768
-  · obtain ⟨memo, hm, _⟩ := createRgbaPalette_spec pal trns hg.1 hg.2
+  · obtain ⟨memo, hm, _⟩ := createRgbaPaletteOld_spec pal trns hg.1 hg.2
     exact Or.inr ⟨memo, hm⟩
-  · exact Or.inl ((createRgbaPalette_panic_iff pal trns).mpr (by omega))
+  · exact Or.inl ((createRgbaPaletteOld_panic_iff pal trns).mpr (by omega))
+
+/-- **the repaired `create_rgba_palette` is total**: a table of 256 rows for every PLTE and tRNS,
+    never a panic -/
+theorem createRgbaPalette_total (pal : Bytes) (trns : Option Bytes) :
+    ∃ memo, createRgbaPalette pal trns = .ok memo ∧ memo.length = 256 := by
+  obtain ⟨memo, hm, hl, _⟩ := createRgbaPalette_spec pal trns
+  exact ⟨memo, hm, hl⟩
+
+theorem createRgbaPalette_no_panic (pal : Bytes) (trns : Option Bytes) :
+    createRgbaPalette pal trns ≠ .error .panic := by
+  obtain ⟨memo, hm, _⟩ := createRgbaPalette_total pal trns
+  rw [hm]; intro h; cases h
+
+/-- the repair is conservative: with a valid PLTE (or none) the pinned-tree row transform is the
+    repaired one -/
+theorem transformRowOld_eq (info : Info) (f : Flags) (row out : Bytes)
+    (hguard : ∀ p, info.palette = some p → p.length % 3 = 0 ∧ p.length ≤ 768) :
+    transformRowOld info f row out = transformRow info f row out := by
+  unfold transformRowOld transformRow applyKind
+  cases selectTransform info f with
+  | error e => rfl
+  | ok k =>
+    simp only
+    cases hp : info.palette with
+    | none => cases k <;> simp [applyKindWith, hp]
+    | some p =>
+      have hg := hguard p hp
+      cases k <;> simp [applyKindWith, hp, createRgbaPalette_eq, specPalette_of_guard p hg.1 hg.2]
 
 /-! ### documented corner cases of the palette lookup -/
 
@@ -1500,29 +1579,32 @@ theorem specPaletteAlpha_out_of_range (pal : Bytes) (trns : Option Bytes) (i : N
 
 /-- an index beyond the palette is looked up as opaque black in the memo table -/
 theorem memo_out_of_range (pal : Bytes) (trns : Option Bytes) (memo : List Rgba)
-    (h3 : pal.length % 3 = 0) (h768 : pal.length ≤ 768)
-    (hm : createRgbaPalette pal trns = .ok memo) (i : Nat) (hi : pal.length / 3 ≤ i) (h256 : i < 256) :
+    (hm : createRgbaPalette pal trns = .ok memo) (i : Nat) (hi : min (pal.length / 3) 256 ≤ i)
+    (h256 : i < 256) :
     memo[i]? = some (0, 0, 0, 0xFF) := by
-  obtain ⟨memo', hm', _, hent⟩ := createRgbaPalette_spec pal trns h3 h768
+  obtain ⟨memo', hm', _, hent⟩ := createRgbaPalette_spec pal trns
   rw [hm] at hm'; cases hm'
   obtain ⟨e, he, hok⟩ := hent i h256
-  rw [he, entry_of_ok pal trns i e hok (by simp [specPaletteRgb]; omega)
-    (specPaletteAlpha_out_of_range pal trns i hi)]
+  have hi' : (specPalette pal).length / 3 ≤ i := by rw [specPalette_entries]; exact hi
+  have hlen := specPalette_length pal
+  rw [he, entry_of_ok (specPalette pal) trns i e hok (by simp [specPaletteRgb]; omega)
+    (specPaletteAlpha_out_of_range (specPalette pal) trns i hi')]
 
 /-- a tRNS chunk with more entries than the palette is ignored: the memo table is that of an empty tRNS -/
-theorem createRgbaPalette_trns_longer (pal t : Bytes) (h : pal.length / 3 < t.length) :
+theorem createRgbaPalette_trns_longer (pal t : Bytes) (h : min (pal.length / 3) 256 < t.length) :
     createRgbaPalette pal (some t) = createRgbaPalette pal (some []) := by
-  simp only [createRgbaPalette, Option.getD_some, show ¬ (t.length ≤ pal.length / 3) by omega,
+  have h' : ¬ (t.length ≤ (specPalette pal).length / 3) := by rw [specPalette_entries]; omega
+  simp only [createRgbaPalette_eq, createRgbaPaletteOld, Option.getD_some, h',
     if_false, List.length_nil, Nat.zero_le, if_true]
 
 theorem specConvert_trns_longer (info : Info) (f : Flags) (row : Bytes) (w : Nat) (pal t : Bytes)
     (hct : info.colorType = .indexed) (hp : info.palette = some pal) (ht : info.trns = some t)
-    (h : pal.length / 3 < t.length) :
+    (h : min (pal.length / 3) 256 < t.length) :
     specConvert info f row w = specConvert { info with trns := some [] } f row w := by
+  have h' : ¬ (t.length ≤ (specPalette pal).length / 3) := by rw [specPalette_entries]; omega
   have hpx : ∀ px, specPixel info f px = specPixel { info with trns := some [] } f px := by
     intro px
-    simp [specPixel, specExpandedDepth, specExpandPixel, hct, hp, ht, addAlpha, specPaletteAlpha,
-      show ¬ (t.length ≤ pal.length / 3) by omega]
+    simp [specPixel, specExpandedDepth, specExpandPixel, hct, hp, ht, addAlpha, specPaletteAlpha, h']
   simp only [specConvert, hpx]
   rfl
 
